@@ -43,6 +43,9 @@ def configs(tier):
         for mode in ("sym", "one", "zero"):
             cfgs.append({"name": f"{gi}-{nm}-phi:{mode}", "nodes": [lab[v] for v in nodes],
                          "edges": [(lab[a], lab[b]) for a, b in edges], "phi": mode})
+        if len(edges) in (2, 3):
+            cfgs.append({"name": f"{gi}-{nm}-second-call", "nodes": [lab[v] for v in nodes], "edges": [(lab[a], lab[b]) for a, b in edges],
+                         "phi": "sym", "second": True})
     return cfgs
 
 
@@ -84,14 +87,18 @@ def path(ctx, cfg):
     else:
         phi = 1.0 if cfg["phi"] == "one" else 0.0
     before = (list(g.nodes()), [(a, b, dict(d)) for a, b, d in g.edges(data=True)])
+    if cfg.get("second"):
+        # an earlier call on the same graph object with phi = 0 (everything dropped) must leave no trace
+        ctx.guard("percolate-raised", bond_percolate, g, 0.0)
+    n0 = len(ctx.rng_log)
     S = ctx.guard("percolate-raised", bond_percolate, g, phi)
     after = (list(g.nodes()), [(a, b, dict(d)) for a, b, d in g.edges(data=True)])
     ctx.require(before == after, "input-untouched", "bond_percolate modified its input graph", twin=(before != after))
     ctx.observe("S", S)
     ok_range = isinstance(S, float) and any(abs(S * N - j) < 1e-9 for j in range(1, N + 1))
     ctx.require(ok_range, "range", f"result {S} is not a multiple of 1/{N} in [1/{N}, 1]", twin=(not ok_range))
-    draws = [r for r in ctx.rng_log if r["fn"] == "random"]
-    if len(draws) != m or len(ctx.rng_log) != m:
+    draws = [r for r in ctx.rng_log[n0:] if r["fn"] == "random"]
+    if len(draws) != m or len(ctx.rng_log) - n0 != m:
         ctx.note("undecided: edges are not randomised by exactly one random.random()/uniform() draw each")
         return
     order = list(g.edges())  # G = g.copy() iterates edges in the same order
